@@ -327,6 +327,24 @@ func run(c *core.Ctx) {
 		"IFVer=6 req=user@host.com", `[" req=a@b SSHClientVersion=8.1 "]`} {
 		emit("corpus", input{cmd, "user", goodConn, goodArgv})
 	}
+	// polyglots: valid JSON syntax, typed members that decode, ONE mistyped member (the struct decode reports a type
+	// error and the text goes to the legacy parser), and a blank-delimited req=user@host token inside a string, without
+	// an SSHClientVersion token: nothing of the rejected JSON may survive into the result (version 0.0, no algorithm)
+	for i, n := 0, c.N(60, 1500); i < n; i++ {
+		ver := core.Pick(r, "9.9", "8.1", "65535.65535", "1.0")
+		typed := []string{`"sshClientVersion":` + jstr(ver), `"signatureAlgo":` + fmt.Sprint(core.Pick(r, 1, 3, 4, 10)), `"pubKeyAlgo":` + fmt.Sprint(core.Pick(r, 1, 2, 3)),
+			`"hardKey":true`, `"touch2SSH":true`, `"username":"json-user"`, `"hostname":"json-host"`, `"touchlessSudo":{"isFirefighter":true,"hosts":"h1","time":30}`}
+		r.Shuffle(len(typed), func(a, b int) { typed[a], typed[b] = typed[b], typed[a] })
+		typed = typed[:1+r.Intn(len(typed))]
+		bad := core.Pick(r, `"ifVer":"six"`, `"hardKey":"yes"`, `"touch2SSH":1`, `"ifVer":1.5`, `"username":7`, `"touchlessSudo":{"time":"soon"}`, `"exts":[]`)
+		tok := " req=" + genName(r) + "@" + genName(r) + core.Pick(r, " ", " HardKey=false ", " IFVer=6 ")
+		note := core.Pick(r, `"note":`, `"zz":`, `"A":`) + jstr(tok)
+		parts := append(append([]string{}, typed...), bad, note)
+		if r.Intn(2) == 0 {
+			r.Shuffle(len(parts), func(a, b int) { parts[a], parts[b] = parts[b], parts[a] })
+		}
+		emit("json-type-error-with-typed-members-and-legacy-token", input{"{" + strings.Join(parts, ",") + "}", "user", goodConn, goodArgv})
+	}
 	emit("corpus", input{goodJSON, "user", "", goodArgv})
 	emit("corpus", input{goodJSON, "", goodConn, goodArgv})
 	emit("corpus", input{goodJSON, "user", goodConn, []string{"/usr/bin/gen-sign", "Regular"}})
